@@ -42,7 +42,7 @@ REDUCED = [
     ["- 240203#00 carries the first zid of a date other items are dated with"],
     ["x 2024-02-29 done on a leap day"],
 ]
-LAYOUTS = ["same_block", "two_blocks", "dated_h2", "subdir", "two_pages", "same_name_pages", "deep_sections", "h2_first"]
+LAYOUTS = ["same_block", "two_blocks", "dated_h2", "subdir", "two_pages", "same_name_pages", "deep_sections", "h2_first", "crlf"]
 
 
 def variant_items():
@@ -91,6 +91,10 @@ def build_files(case) -> dict[str, str]:
     A, B = "\n".join(a) + "\n", "\n".join(b) + "\n"
     if layout == "same_block":
         return {"a.zo": "# t\n\n" + A + B}
+    if layout == "crlf":
+        # a page with Windows line endings is a valid page; only the first lines of the
+        # formerly ZID-less items may change
+        return {"a.zo": ("# t\n\n" + A + "\n" + B).replace("\n", "\r\n"), "b.zo": "# plain\n\n" + "- 240107#Z8 lf page\n"}
     if layout == "two_blocks":
         return {"a.zo": "# t\n\n" + A + "\n" + B}
     if layout == "dated_h2":
